@@ -10249,17 +10249,26 @@ class Parser:
             query=query.select(*select.expressions, append=False), expressions=[exp.Star()]
         )
 
+    def _pipe_syntax_row_count(self, node: exp.Expr | None) -> int | None:
+        count = node.args.get("expression") if node else None
+        if isinstance(count, exp.Literal) and count.is_int:
+            return count.to_py()
+        if node:
+            self.raise_error("Expected an integer literal")
+        return None
+
     def _parse_pipe_syntax_limit(self, query: exp.Select) -> exp.Select:
         limit = self._parse_limit()
         offset = self._parse_offset()
-        if limit:
-            curr_limit = query.args.get("limit", limit)
-            if curr_limit.expression.to_py() >= limit.expression.to_py():
+        limit_count = self._pipe_syntax_row_count(limit)
+        if limit and limit_count is not None:
+            curr_limit = self._pipe_syntax_row_count(query.args.get("limit"))
+            if curr_limit is None or curr_limit >= limit_count:
                 query.limit(limit, copy=False)
-        if offset:
-            curr_offset = query.args.get("offset")
-            curr_offset = curr_offset.expression.to_py() if curr_offset else 0
-            query.offset(exp.Literal.number(curr_offset + offset.expression.to_py()), copy=False)
+        offset_count = self._pipe_syntax_row_count(offset)
+        if offset_count is not None:
+            curr_offset = self._pipe_syntax_row_count(query.args.get("offset")) or 0
+            query.offset(exp.Literal.number(curr_offset + offset_count), copy=False)
 
         return query
 
@@ -10325,14 +10334,20 @@ class Parser:
         if not first_setop:
             return None
 
+        def _unwrap_query(expr: exp.Expr) -> exp.Expr:
+            if not isinstance(expr, exp.Subquery):
+                self.raise_error("Expected a parenthesized query")
+                return expr
+            return expr.unnest()
+
         def _parse_and_unwrap_query() -> exp.Expr | None:
             expr = self._parse_paren()
-            return expr.assert_is(exp.Subquery).unnest() if expr else None
+            return _unwrap_query(expr) if expr else None
 
         first_setop.this.pop()
 
         setops = [
-            first_setop.expression.pop().assert_is(exp.Subquery).unnest(),
+            _unwrap_query(first_setop.expression.pop()),
             *self._parse_csv(_parse_and_unwrap_query),
         ]
 
